@@ -1,1 +1,769 @@
-//! persistsim: see /verif/DESIGN.md
+//! persistsim: decides the persister half of property C19 — "on top of an atomic key-value store,
+//! `MonitorUpdatingPersister` recovers after a crash between any two store operations a monitor
+//! that includes every update it had reported as persisted and equals the in-memory monitor as of
+//! that update; its clean-up never deletes an update that recovery still needs."
+//!
+//! See /verif/DESIGN.md §5 C19 (b) and (c).
+//!
+//! Structure of one run:
+//! * an `lnsim::world::World` (2–3 real `ChannelManager`s + `ChainMonitor`s) produces realistic
+//!   monitor-update histories: payments, claims, fails, fee updates, cooperative and force closes,
+//!   on-chain resolution;
+//! * after every world action the persist calls the node's `ChainMonitor` made are captured (update
+//!   bytes from the `Watch` tap, the serialised in-memory monitor from the node's simulated disk)
+//!   and forwarded, in order, to a `Mirror`: the real `MonitorUpdatingPersister` over a `SimKv`;
+//! * after every forwarded call, and every persister-level action of the simulator
+//!   (`cleanup_stale_updates`, `archive_persisted_channel`, restart, store sync, injected store
+//!   error), every crash state at a store-operation boundary is recovered with a fresh persister
+//!   and checked (`mirror.rs`).
+
+pub mod asyncp;
+pub mod kv;
+pub mod mirror;
+
+use lightning::util::ser::Writeable;
+use lnsim::world::{Action as WAction, World};
+use mirror::{Ctx, Mirror, MirrorCfg};
+use serde::{Deserialize, Serialize};
+use serde_json::{json, Value};
+use simcore::{fnv, fnv_extend, Rng, RunOutcome, Sim, Tier};
+use std::collections::{BTreeMap, BTreeSet};
+
+pub const MAX_PENDING_CHOICES: [u64; 7] = [0, 1, 2, 3, 5, 10, 100];
+
+#[derive(Clone, Debug, Serialize, Deserialize)]
+pub struct MirrorSpec {
+	pub node: usize,
+	pub max_pending: u64,
+}
+
+#[derive(Clone, Debug, Serialize, Deserialize)]
+pub struct Config {
+	pub world: lnsim::world::Config,
+	pub mirrors: Vec<MirrorSpec>,
+	/// in-run visibility of lazy removals (see kv.rs)
+	pub lazy_mode: u8,
+	pub coin_seed: u64,
+	pub list_salt: u64,
+	/// number of random "some lazy removals lost" crash states per op boundary
+	pub lazy_samples: u8,
+	pub steps: u64,
+	/// weights of the three action families
+	pub w_world: u32,
+	pub w_chain: u32,
+	pub w_persist: u32,
+	/// weights inside the persister family
+	pub w_cleanup: u32,
+	pub w_reload: u32,
+	pub w_archive: u32,
+	pub w_flush: u32,
+	pub w_err: u32,
+	/// percent chance that in-flight monitor writes of the world are completed right after an action
+	pub eager_complete_pct: u8,
+	pub reload_changes_max: bool,
+	/// from this many executed actions on, channel closes are enabled with these weights and the
+	/// chain family gets `w_chain_late`
+	pub close_after: u64,
+	pub w_close_coop: u32,
+	pub w_force_close: u32,
+	pub w_chain_late: u32,
+}
+
+#[derive(Clone, Debug, Serialize, Deserialize, PartialEq)]
+pub enum Action {
+	/// an action of the lnsim world
+	W(WAction),
+	Cleanup { node: usize, lazy: bool },
+	Reload { node: usize, max: Option<u64> },
+	Archive { node: usize, idx: usize },
+	Flush { node: usize },
+	ArmErr { node: usize, after: u32, applied: bool },
+}
+
+impl Action {
+	pub fn kind(&self) -> String {
+		match self {
+			Action::W(a) => format!("W{}", a.kind()),
+			Action::Cleanup { lazy, .. } => format!("Cleanup{}", if *lazy { "Lazy" } else { "Strict" }),
+			Action::Reload { .. } => "Reload".into(),
+			Action::Archive { .. } => "Archive".into(),
+			Action::Flush { .. } => "Flush".into(),
+			Action::ArmErr { .. } => "ArmErr".into(),
+		}
+	}
+	pub fn actor(&self) -> usize {
+		match self {
+			Action::W(a) => a.actor(),
+			Action::Cleanup { node, .. }
+			| Action::Reload { node, .. }
+			| Action::Archive { node, .. }
+			| Action::Flush { node }
+			| Action::ArmErr { node, .. } => *node,
+		}
+	}
+}
+
+#[derive(Default)]
+struct Capture {
+	persist_cursor: usize,
+	watch_cursor: usize,
+	updates: BTreeMap<([u8; 32], u64), Vec<u8>>,
+}
+
+pub struct Run {
+	pub cfg: Config,
+	pub wd: World,
+	pub mirrors: Vec<Mirror>,
+	caps: Vec<Capture>,
+	pub out: RunOutcome,
+	pub hist: u64,
+	pub inter: u64,
+	pub trace: Vec<Action>,
+	pub step: u64,
+	pub state_fps: BTreeSet<u64>,
+	pub sample: Vec<String>,
+	pub world_dead_noted: bool,
+	/// per node: chain epoch (even between chain deliveries, odd while one is in progress)
+	pub epochs: Vec<u64>,
+}
+
+pub fn gen_config(rng: &mut Rng, tier: Tier) -> Config {
+	let mut r = rng.fork("persist-config");
+	let mut world = lnsim::sched::gen_config("persist", rng, tier);
+	for n in world.nodes.iter_mut() {
+		// every persist call leaves its blob among the node's in-flight candidates, which is where
+		// the capture reads it from
+		n.async_default = true;
+		n.deferred = false;
+	}
+	let w = &mut world.weights;
+	let mut set = |k: &str, v: u32| {
+		w.insert(k.to_string(), v);
+	};
+	set("CompleteMon", *r.pick(&[20, 40, 80]));
+	set("AsyncOn", 0);
+	set("PersistMgr", 1);
+	set("Crash", 0);
+	set("ArmCrash", 0);
+	set("Restart", 0);
+	// closes are switched on by the driver late in the run (`close_after`)
+	set("CloseCoop", 0);
+	set("ForceClose", 0);
+	set("Disconnect", *r.pick(&[0, 1, 2]));
+	set("Send", *r.pick(&[12, 20, 30]));
+	set("Claim", *r.pick(&[8, 12, 20]));
+	world.max_payments = r.range(2, 10) as usize;
+	let steps = match tier {
+		Tier::Quick => r.range(100, 350),
+		Tier::Thorough => r.range(150, 700),
+	};
+	world.max_steps = steps;
+	let n_nodes = world.nodes.len();
+	// swarm: which nodes are mirrored (at least one; the middle node of a line is the forwarder)
+	let mut mirrors = Vec::new();
+	for n in 0..n_nodes {
+		if r.chance(2, 3) {
+			mirrors.push(MirrorSpec { node: n, max_pending: *r.pick(&MAX_PENDING_CHOICES) });
+		}
+	}
+	if mirrors.is_empty() {
+		let n = if n_nodes >= 3 { 1 } else { r.below(n_nodes as u64) as usize };
+		mirrors.push(MirrorSpec { node: n, max_pending: *r.pick(&MAX_PENDING_CHOICES) });
+	}
+	Config {
+		world,
+		mirrors,
+		lazy_mode: r.below(3) as u8,
+		coin_seed: r.next_u64(),
+		list_salt: r.next_u64(),
+		lazy_samples: *r.pick(&[1, 2, 2, 3]),
+		steps,
+		w_world: 100,
+		w_chain: *r.pick(&[0, 1, 3, 6]),
+		w_persist: *r.pick(&[2, 5, 10]),
+		w_cleanup: *r.pick(&[0, 3, 6]),
+		w_reload: *r.pick(&[0, 2, 4]),
+		w_archive: *r.pick(&[0, 0, 1, 2]),
+		w_flush: *r.pick(&[0, 2, 6]),
+		w_err: *r.pick(&[0, 0, 1, 2]),
+		eager_complete_pct: *r.pick(&[0, 50, 90, 100]),
+		reload_changes_max: r.chance(1, 3),
+		close_after: steps * r.range(30, 95) / 100,
+		w_close_coop: *r.pick(&[0, 1, 2, 4]),
+		w_force_close: *r.pick(&[0, 1, 2, 4]),
+		w_chain_late: *r.pick(&[5, 15, 30]),
+	}
+}
+
+impl Run {
+	pub fn new(cfg: Config, seed: u64) -> Run {
+		let wd = World::new(cfg.world.clone());
+		let mut out = RunOutcome::new("sync", seed);
+		out.seed = seed;
+		Run {
+			cfg,
+			wd,
+			mirrors: Vec::new(),
+			caps: Vec::new(),
+			out,
+			hist: fnv(b"persistsim"),
+			inter: fnv(b"inter"),
+			trace: Vec::new(),
+			step: 0,
+			state_fps: BTreeSet::new(),
+			sample: Vec::new(),
+			world_dead_noted: false,
+			epochs: vec![0; 8],
+		}
+	}
+
+	pub fn setup(&mut self) {
+		self.wd.setup();
+		if self.wd.dead {
+			self.out.bump("other:world_setup_failed");
+			return;
+		}
+		for spec in self.cfg.mirrors.clone() {
+			if spec.node >= self.wd.nodes.len() {
+				continue;
+			}
+			let node = &self.wd.nodes[spec.node];
+			let mc = MirrorCfg {
+				max_pending: spec.max_pending,
+				lazy_mode: self.cfg.lazy_mode,
+				coin_seed: self.cfg.coin_seed ^ spec.node as u64,
+				list_salt: self.cfg.list_salt ^ (spec.node as u64) << 8,
+				lazy_samples: self.cfg.lazy_samples,
+			};
+			let mut m = Mirror::new(
+				spec.node,
+				std::sync::Arc::clone(&node.keys),
+				std::sync::Arc::clone(&node.fee),
+				&mc,
+			);
+			self.out.bump(&format!("cfg:max_pending_{}", spec.max_pending));
+			// initial registration: the node's monitors as they are in memory after channel setup
+			let mut cap = Capture::default();
+			if let Some(live) = node.live.as_ref() {
+				let mut ids = live.monitor.list_monitors();
+				ids.sort_by_key(|c| c.0);
+				let mut blobs = Vec::new();
+				for id in ids {
+					if let Ok(mon) = live.monitor.get_monitor(id) {
+						blobs.push((id.0, mon.encode()));
+					}
+				}
+				cap.watch_cursor = live.watch.log.lock().unwrap().len();
+				cap.persist_cursor = node.disk.lock().unwrap().log.len();
+				for (cid, blob) in blobs {
+					let mut ctx = Ctx { out: &mut self.out, chain: &self.wd.chain, step: 0, hist: &mut self.hist, epoch: 0 };
+					m.call_new(&mut ctx, cid, blob);
+				}
+			}
+			self.mirrors.push(m);
+			self.caps.push(cap);
+		}
+	}
+
+	/// Forwards the persist calls the world's nodes made since the last scan.
+	fn scan(&mut self) {
+		for mi in 0..self.mirrors.len() {
+			let n = self.mirrors[mi].node;
+			let node = &self.wd.nodes[n];
+			let cap = &mut self.caps[mi];
+			if let Some(live) = node.live.as_ref() {
+				let log = live.watch.log.lock().unwrap();
+				let cur = cap.watch_cursor.min(log.len());
+				for c in log[cur..].iter() {
+					if !c.new_channel {
+						cap.updates.insert((c.chan, c.update_id), c.update_bytes.clone());
+					}
+				}
+				cap.watch_cursor = log.len();
+			}
+			// (chan, id, has_update, new_channel, blob)
+			let mut calls: Vec<([u8; 32], u64, bool, bool, Vec<u8>)> = Vec::new();
+			{
+				let d = node.disk.lock().unwrap();
+				let cur = cap.persist_cursor.min(d.log.len());
+				let new = &d.log[cur..];
+				let mut per_chan: BTreeMap<[u8; 32], usize> = BTreeMap::new();
+				for pc in new.iter() {
+					*per_chan.entry(pc.chan).or_insert(0) += 1;
+				}
+				let mut seen: BTreeMap<[u8; 32], usize> = BTreeMap::new();
+				for pc in new.iter() {
+					let k = per_chan[&pc.chan];
+					let i = {
+						let e = seen.entry(pc.chan).or_insert(0);
+						*e += 1;
+						*e - 1
+					};
+					let blob = d.chans.get(&pc.chan).and_then(|cd| {
+						let len = cd.candidates.len();
+						if len < k {
+							return None;
+						}
+						let (id, b) = &cd.candidates[len - k + i];
+						if *id == pc.update_id {
+							Some(b.clone())
+						} else {
+							None
+						}
+					});
+					match blob {
+						Some(b) => calls.push((pc.chan, pc.update_id, pc.has_update, pc.new_channel, b)),
+						None => {
+							if self.out.harness_errors.len() < 3 {
+								self.out.harness_errors.push(format!(
+									"step {}: capture lost the monitor blob of node {} update {} (the world's disk model changed?)",
+									self.step, n, pc.update_id
+								));
+							}
+							self.mirrors[mi].dead = true;
+						},
+					}
+				}
+				cap.persist_cursor = d.log.len();
+			}
+			for (chan, id, has_update, new_channel, blob) in calls {
+				let mut ctx = Ctx {
+					out: &mut self.out,
+					chain: &self.wd.chain,
+					step: self.step,
+					hist: &mut self.hist,
+					epoch: self.epochs[n],
+				};
+				if new_channel {
+					self.mirrors[mi].call_new(&mut ctx, chan, blob);
+				} else if has_update {
+					match self.caps[mi].updates.get(&(chan, id)) {
+						Some(u) => {
+							let u = u.clone();
+							self.mirrors[mi].call_update(&mut ctx, chan, Some(u), blob)
+						},
+						None => {
+							if ctx.out.harness_errors.len() < 3 {
+								ctx.out.harness_errors.push(format!(
+									"capture has no update bytes for node {} update {}",
+									n, id
+								));
+							}
+							self.mirrors[mi].dead = true;
+						},
+					}
+				} else {
+					ctx.out.bump("probe:persist_without_update");
+					self.mirrors[mi].call_update(&mut ctx, chan, None, blob);
+				}
+			}
+		}
+	}
+
+	fn mirror_of(&self, node: usize) -> Option<usize> {
+		self.mirrors.iter().position(|m| m.node == node)
+	}
+
+	pub fn apply(&mut self, a: &Action) -> bool {
+		self.step += 1;
+		let did = match a {
+			Action::W(wa) => {
+				if self.wd.dead {
+					false
+				} else {
+					// Chain data reaches a node only while its `synced_height` moves. Calls captured
+					// during such an action get an odd (= "unknown chain view") epoch.
+					let before: Vec<u32> = self.wd.nodes.iter().map(|n| n.synced_height).collect();
+					let did = self.wd.apply(wa);
+					let moved: Vec<usize> = (0..self.wd.nodes.len().min(self.epochs.len()))
+						.filter(|n| self.wd.nodes[*n].synced_height != before[*n])
+						.collect();
+					for n in moved.iter() {
+						self.epochs[*n] += 1;
+					}
+					self.scan();
+					for n in moved.iter() {
+						self.epochs[*n] += 1;
+					}
+					if self.wd.dead && !self.world_dead_noted {
+						self.world_dead_noted = true;
+						self.out.bump("other:world_died");
+					}
+					did
+				}
+			},
+			_ => {
+				let node = a.actor();
+				match self.mirror_of(node) {
+					None => false,
+					Some(mi) => {
+						let mut ctx = Ctx {
+							out: &mut self.out,
+							chain: &self.wd.chain,
+							step: self.step,
+							hist: &mut self.hist,
+							epoch: self.epochs[node],
+						};
+						let m = &mut self.mirrors[mi];
+						match a {
+							Action::Cleanup { lazy, .. } => m.act_cleanup(&mut ctx, *lazy),
+							Action::Reload { max, .. } => m.act_reload(&mut ctx, *max),
+							Action::Archive { idx, .. } => m.act_archive(&mut ctx, *idx),
+							Action::Flush { .. } => m.act_flush(&mut ctx),
+							Action::ArmErr { after, applied, .. } => m.act_arm_err(&mut ctx, *after, *applied),
+							Action::W(_) => unreachable!(),
+						}
+					},
+				}
+			},
+		};
+		if did {
+			self.out.bump(&format!("action:{}", a.kind()));
+			self.inter = fnv_extend(self.inter, a.kind().as_bytes());
+			self.inter = fnv_extend(self.inter, &[a.actor() as u8]);
+			if self.sample.len() < 30 {
+				self.sample.push(format!("{:?}", a));
+			}
+			self.trace.push(a.clone());
+			self.fingerprint();
+		}
+		did
+	}
+
+	fn fingerprint(&mut self) {
+		let mut h = fnv(b"pstate");
+		for m in self.mirrors.iter() {
+			h = fnv_extend(h, &[m.node as u8, m.dead as u8, (m.max_pending.min(255)) as u8]);
+			let snap = m.kv.current();
+			h = fnv_extend(h, &[snap.lazy_pending.len().min(4) as u8]);
+			for c in m.chans.values() {
+				let pending = c
+					.stored_id
+					.map(|s| c.update_by_id.keys().filter(|k| **k > s).count())
+					.unwrap_or(0);
+				let phase = match (c.stored_id, m.max_pending) {
+					(Some(s), mp) if mp > 0 => (s % mp).min(7) as u8,
+					_ => 9,
+				};
+				h = fnv_extend(h, &[pending.min(6) as u8, phase, c.archive_started as u8, c.ended as u8]);
+			}
+		}
+		if self.state_fps.len() < 4096 {
+			self.state_fps.insert(h);
+		}
+	}
+
+	pub fn finish(mut self, profile: &str) -> RunOutcome {
+		// the world's own oracles belong to other properties
+		let foreign = self.wd.out.violations.len() as u64;
+		if foreign > 0 {
+			self.out.add("other:lnsim_oracle_tripped", foreign);
+		}
+		if !self.wd.out.harness_errors.is_empty() {
+			self.out.bump("other:world_harness_error");
+		}
+		for (k, v) in self.wd.out.counters.iter() {
+			if k.starts_with("event:") || k.starts_with("closure:") || k.starts_with("msg:") || k.starts_with("probe:send_") {
+				self.out.add(&format!("world:{}", k), *v);
+			}
+		}
+		let mut crash_states = 0;
+		let mut store_ops = 0;
+		for m in self.mirrors.iter() {
+			crash_states += m.crash_states;
+			store_ops += m.kv.op_count() as u64;
+		}
+		self.out.add("other:store_ops", store_ops);
+		self.out.profile = profile.to_string();
+		self.out.steps = self.step;
+		self.out.sim_seconds = self.wd.clock.saturating_sub(1_700_000_000);
+		self.out.sim_blocks = self.wd.out.sim_blocks;
+		self.out.history_fp = fnv_extend(self.hist, &self.wd.hist.to_le_bytes());
+		self.out.interleaving_fp = self.inter;
+		self.out.state_fps = self.state_fps.iter().cloned().collect();
+		// non-trivial: at least one update was stored incrementally and at least one crash state
+		// was recovered by applying stored updates on top of a stored monitor
+		let c = |k: &str| self.out.counters.get(k).copied().unwrap_or(0);
+		self.out.nontrivial =
+			c("probe:update_written_incrementally") > 0 && c("probe:recovered_by_applying_updates") > 0
+				|| (crash_states > 20 && self.cfg.mirrors.iter().all(|m| m.max_pending <= 1));
+		self.out.sample = Some(json!({
+			"profile": profile,
+			"nodes": self.cfg.world.nodes.len(),
+			"channels": self.cfg.world.chans.len(),
+			"mirrors": self.cfg.mirrors,
+			"lazy_mode": self.cfg.lazy_mode,
+			"store_ops": store_ops,
+			"crash_states": crash_states,
+			"first_actions": self.sample,
+		}));
+		if !self.out.violations.is_empty() || !self.out.harness_errors.is_empty() {
+			self.out.replay = Some(json!({
+				"sim": "persistsim",
+				"profile": profile,
+				"config": serde_json::to_value(&self.cfg).unwrap(),
+				"trace": serde_json::to_value(&self.trace).unwrap(),
+			}));
+		}
+		self.out
+	}
+}
+
+// ---------------------------------------------------------------------------------------------
+// scheduler
+
+fn pending_completions(wd: &World) -> Vec<(usize, usize)> {
+	let mut v = Vec::new();
+	for (i, n) in wd.nodes.iter().enumerate() {
+		if n.live.is_none() {
+			continue;
+		}
+		let d = n.disk.lock().unwrap();
+		for (k, c) in d.chans.iter() {
+			if !c.completions.is_empty() {
+				if let Some(ci) = wd.chans.iter().position(|x| x.channel_id.0 == *k) {
+					v.push((i, ci));
+				}
+			}
+		}
+	}
+	v
+}
+
+/// A payment the channels can actually carry (the world's own generator aims at its limits):
+/// direct or two-hop along the line, amount well inside what the first hop reports.
+fn gen_send(wd: &World, rng: &mut Rng) -> Option<Action> {
+	let n = wd.nodes.len();
+	let from = rng.below(n as u64) as usize;
+	let mgr = wd.mgr(from)?;
+	let usable = |x: usize| -> Vec<(usize, usize)> {
+		wd.chans
+			.iter()
+			.filter(|c| !c.close_requested && (c.a == x || c.b == x))
+			.map(|c| (c.idx, if c.a == x { c.b } else { c.a }))
+			.collect()
+	};
+	let first = usable(from);
+	if first.is_empty() {
+		return None;
+	}
+	let (c1, p1) = *rng.pick(&first);
+	let mut path = vec![c1];
+	let mut to = p1;
+	if rng.chance(1, 2) {
+		let next: Vec<(usize, usize)> = usable(p1).into_iter().filter(|(_, p)| *p != from).collect();
+		if !next.is_empty() {
+			let (c2, p2) = *rng.pick(&next);
+			path.push(c2);
+			to = p2;
+		}
+	}
+	wd.mgr(to)?;
+	let cid = wd.chans[c1].channel_id;
+	let det = mgr.list_channels().into_iter().find(|d| d.channel_id == cid)?;
+	if !det.is_usable {
+		return None;
+	}
+	let (min, max) = (det.next_outbound_htlc_minimum_msat.max(1), det.next_outbound_htlc_limit_msat);
+	if max <= min + 10_000 {
+		return None;
+	}
+	let hi = (max / *rng.pick(&[3u64, 5, 10, 40])).max(min + 1);
+	let amt = match rng.below(6) {
+		0 => rng.range(min, (min + 2_000_000).min(hi)),
+		_ => rng.range(min, hi),
+	};
+	Some(Action::W(WAction::Send {
+		from,
+		to,
+		paths: vec![path],
+		amts: vec![amt],
+		fee_delta_msat: 0,
+		cltv_delta_adj: 0,
+	}))
+}
+
+fn next_chain_action(wd: &World, rng: &mut Rng) -> Option<Action> {
+	let n = wd.nodes.len();
+	let tip = wd.chain.tip_height();
+	let mut opts: Vec<(WAction, u32)> = Vec::new();
+	for i in 0..n {
+		if wd.nodes[i].live.is_none() {
+			continue;
+		}
+		if wd.nodes[i].broadcaster.len() > 0 {
+			opts.push((WAction::Relay { n: i }, 30));
+		}
+		if wd.nodes[i].synced_height < tip {
+			opts.push((WAction::Sync { n: i, style: 0 }, 30));
+		}
+	}
+	let mine_w = if wd.chain.mempool.is_empty() { 6 } else { 30 };
+	opts.push((WAction::Mine { count: *rng.pick(&[1u32, 1, 1, 2, 3, 6]) }, mine_w));
+	let ws: Vec<u32> = opts.iter().map(|(_, w)| *w).collect();
+	let i = rng.weighted(&ws);
+	Some(Action::W(opts[i].0.clone()))
+}
+
+fn next_persist_action(run: &Run, rng: &mut Rng) -> Option<Action> {
+	let cfg = &run.cfg;
+	let alive: Vec<usize> = run.mirrors.iter().filter(|m| !m.dead).map(|m| m.node).collect();
+	if alive.is_empty() {
+		return None;
+	}
+	let node = *rng.pick(&alive);
+	let ws = [cfg.w_cleanup, cfg.w_reload, cfg.w_archive, cfg.w_flush, cfg.w_err];
+	if ws.iter().all(|w| *w == 0) {
+		return None;
+	}
+	Some(match rng.weighted(&ws) {
+		0 => Action::Cleanup { node, lazy: rng.coin() },
+		1 => {
+			let max = if cfg.reload_changes_max && rng.chance(1, 2) {
+				Some(*rng.pick(&MAX_PENDING_CHOICES))
+			} else {
+				None
+			};
+			Action::Reload { node, max }
+		},
+		2 => Action::Archive { node, idx: rng.below(4) as usize },
+		3 => Action::Flush { node },
+		_ => Action::ArmErr { node, after: rng.below(12) as u32, applied: rng.coin() },
+	})
+}
+
+fn drive(run: &mut Run, rng: &mut Rng) {
+	let mut sched = rng.fork("schedule");
+	let mut idle = 0;
+	while (run.trace.len() as u64) < run.cfg.steps && idle < 60 {
+		if run.mirrors.iter().all(|m| m.dead) {
+			break;
+		}
+		let late = run.trace.len() as u64 >= run.cfg.close_after;
+		if late {
+			let (cc, fc) = (run.cfg.w_close_coop, run.cfg.w_force_close);
+			run.wd.cfg.weights.insert("CloseCoop".to_string(), cc);
+			run.wd.cfg.weights.insert("ForceClose".to_string(), fc);
+		}
+		let cfg = &run.cfg;
+		let w_chain = if late { cfg.w_chain_late } else { cfg.w_chain };
+		let fam = if run.wd.dead {
+			2
+		} else {
+			sched.weighted(&[cfg.w_world, w_chain, cfg.w_persist])
+		};
+		let a = match fam {
+			0 => match lnsim::sched::next_action(&run.wd, &mut sched).map(Action::W) {
+				// the world wants to send: use a payment that is likely to go through
+				Some(Action::W(WAction::Send { .. })) if sched.chance(4, 5) => gen_send(&run.wd, &mut sched),
+				other => other,
+			},
+			1 => next_chain_action(&run.wd, &mut sched),
+			_ => next_persist_action(run, &mut sched),
+		};
+		let a = match a {
+			Some(a) => a,
+			None => {
+				idle += 1;
+				if run.wd.dead {
+					break;
+				}
+				continue;
+			},
+		};
+		if run.apply(&a) {
+			idle = 0;
+		} else {
+			idle += 1;
+		}
+		if let Action::W(_) = a {
+			if !run.wd.dead && sched.below(100) < run.cfg.eager_complete_pct as u64 {
+				for (n, chan) in pending_completions(&run.wd) {
+					run.apply(&Action::W(WAction::CompleteMon { n, chan, which: 0 }));
+				}
+			}
+		}
+	}
+	// closing phase: make sure the typical end-of-life persister actions happen at least sometimes
+	if !run.out.violations.is_empty() {
+		return;
+	}
+	let nodes: Vec<usize> = run.mirrors.iter().filter(|m| !m.dead).map(|m| m.node).collect();
+	for node in nodes {
+		if run.cfg.w_cleanup > 0 && sched.chance(1, 2) {
+			run.apply(&Action::Cleanup { node, lazy: sched.coin() });
+		}
+		if run.cfg.w_reload > 0 && sched.chance(1, 3) {
+			run.apply(&Action::Reload { node, max: None });
+		}
+	}
+}
+
+pub struct PersistSim;
+
+fn bad_replay(msg: String) -> RunOutcome {
+	let mut o = RunOutcome::default();
+	o.harness_errors.push(msg);
+	o
+}
+
+impl Sim for PersistSim {
+	fn name(&self) -> &'static str {
+		"persistsim"
+	}
+
+	fn run(&self, profile: &str, seed: u64, tier: Tier) -> RunOutcome {
+		match profile {
+			"async" => asyncp::run(seed, tier),
+			_ => {
+				let mut rng = Rng::new(seed);
+				let cfg = gen_config(&mut rng, tier);
+				let mut run = Run::new(cfg, seed);
+				run.setup();
+				if !run.wd.dead {
+					drive(&mut run, &mut rng);
+				}
+				run.finish("sync")
+			},
+		}
+	}
+
+	fn replay(&self, replay: &Value) -> RunOutcome {
+		let profile = replay.get("profile").and_then(|p| p.as_str()).unwrap_or("sync");
+		if profile == "async" {
+			return asyncp::replay(replay);
+		}
+		let cfg: Config = match serde_json::from_value(replay["config"].clone()) {
+			Ok(c) => c,
+			Err(e) => return bad_replay(format!("bad replay config: {}", e)),
+		};
+		let trace: Vec<Action> = match serde_json::from_value(replay["trace"].clone()) {
+			Ok(t) => t,
+			Err(e) => return bad_replay(format!("bad replay trace: {}", e)),
+		};
+		let mut run = Run::new(cfg, 0);
+		run.setup();
+		for a in trace.iter() {
+			run.apply(a);
+		}
+		run.finish("sync")
+	}
+
+	fn components(&self) -> (Vec<String>, Vec<String>) {
+		(
+			vec![
+				"MonitorUpdatingPersister (sync) incl. read_all_channel_monitors_with_updates, read_channel_monitor_with_updates, cleanup_stale_updates, archive_persisted_channel".into(),
+				"MonitorUpdatingPersisterAsync + ChainMonitor::new_async_beta (profile async)".into(),
+				"ChannelMonitor (de)serialisation and update_monitor (recovery path)".into(),
+				"ChannelManager / ChainMonitor / Channel of the lnsim world producing the monitor-update histories".into(),
+				"KeysManager + InMemorySigner inside TestChannelSigner".into(),
+			],
+			vec![
+				"KVStoreSync / KVStore (SimKv: BTreeMap + op log, crash at every op boundary, lazy-removal coin, injected io::Error)".into(),
+				"FutureSpawner (parks futures; the scheduler polls them)".into(),
+				"the node around the persister: lnsim world (queues, chain, broadcaster, fee estimator, logger)".into(),
+				"chainmonitor::Persist of the world's nodes (lnsim SimPersister); its calls are forwarded to the persister under test".into(),
+			],
+		)
+	}
+}
